@@ -467,7 +467,10 @@ func createStrFunctions() { //nolint:funlen // we do have quite a few, yes.
 			// Every match is replaced by the template: check the memory it takes before building it (not after).
 			// At most one match per byte; only when that many would not fit are the matches counted (one by one:
 			// collecting them all would itself take more memory than the input).
-			if ok, _ := object.SizeOk((len(inp) + (len(inp)+1)*len(repl)) / object.ObjectSize); !ok {
+			// A $name in the template stands for (part of) the match it replaces, and all matches together are at most
+			// the input: every reference adds at most the length of the input to the result.
+			expand := strings.Count(repl, "$") * len(inp)
+			if ok, _ := object.SizeOk((len(inp) + (len(inp)+1)*len(repl) + expand) / object.ObjectSize); !ok {
 				matches := 0
 				for pos := 0; pos <= len(inp); {
 					loc := re.FindStringIndex(inp[pos:])
@@ -477,7 +480,7 @@ func createStrFunctions() { //nolint:funlen // we do have quite a few, yes.
 					matches++
 					pos += max(loc[1], loc[0]+1)
 				}
-				object.MustBeOk((len(inp) + matches*len(repl)) / object.ObjectSize)
+				object.MustBeOk((len(inp) + matches*len(repl) + expand) / object.ObjectSize)
 			}
 		}
 		newStr := re.ReplaceAllString(inp, repl)
